@@ -222,8 +222,32 @@ def all_vars(p):
     return out
 
 
+def opt_condition_over_subselect(p):
+    """same finding, seen from the other side: the condition of an OPTIONAL mentions a variable of the left operand while the right
+    operand holds a sub-SELECT; RDFLib lets the condition see the left solution only through the bindings it pushes into the right
+    operand, and a sub-SELECT does not hand those on"""
+    for q in subpatterns(p):
+        if q[0] != "opt":
+            continue
+        conds = [q[3]] if len(q) > 3 and q[3] is not None else []
+        b = q[2]
+        while b[0] == "filter":
+            conds.append(b[1])
+            b = b[2]
+        if not conds or not contains(q[2], "sub"):
+            continue
+        cv = set()
+        for e in conds:
+            cv |= expr_vars_deep(e)
+        if (cv - ref.in_scope(q[2])) & ref.in_scope(q[1]):
+            return True
+    return False
+
+
 def subselect_hides_shared_var(p, top=True):
     """class of known finding C04-subselect-scope-leak: a sub-SELECT does not project a variable that also occurs outside it"""
+    if opt_condition_over_subselect(p):
+        return True
     subs = [q for q in subpatterns(p) if q[0] == "sub" and q[1] is not None]
     for q in subs:
         hidden = all_vars(q[3]) - set(q[1])
@@ -253,7 +277,7 @@ def needs_no_triples(p):
     if k == "filter":
         return needs_no_triples(p[2])
     if k == "graph":
-        return needs_no_triples(p[2])
+        return True  # a nested GRAPH does not look at the graph around it at all
     if k == "sub":
         return needs_no_triples(p[3])
     return False
